@@ -115,6 +115,15 @@ func (t *traceRec) hook(fi, ip, sp, nh int, op byte) {
 	}
 }
 
+// noStack cuts the Go stack text (goroutine ids, addresses) that handlePanic appends to
+// the message of a recovered panic: it is never compared.
+func noStack(msg string) string {
+	if i := strings.Index(msg, "\nGo Stack:"); i >= 0 {
+		return msg[:i]
+	}
+	return msg
+}
+
 func outcomeString(ret ugo.Object, err error, panicked any) string {
 	if panicked != nil {
 		return "panic"
@@ -123,11 +132,11 @@ func outcomeString(ret ugo.Object, err error, panicked any) string {
 		switch e := err.(type) {
 		case *ugo.RuntimeError:
 			if e.Err != nil {
-				return "err " + codec.Hex([]byte(e.Err.Name)) + " " + codec.Hex([]byte(e.Err.Message))
+				return "err " + codec.Hex([]byte(e.Err.Name)) + " " + codec.Hex([]byte(noStack(e.Err.Message)))
 			}
 			return "err nil"
 		case *ugo.Error:
-			return "err " + codec.Hex([]byte(e.Name)) + " " + codec.Hex([]byte(e.Message))
+			return "err " + codec.Hex([]byte(e.Name)) + " " + codec.Hex([]byte(noStack(e.Message)))
 		}
 		if strings.HasPrefix(err.Error(), "panic:") {
 			return "goerr panic"
@@ -197,6 +206,7 @@ func init() {
 				r := c.R.Fork()
 				o := gen.DefaultProgOpts()
 				o.Floats = false
+				o.NoCycles = true
 				src := gen.Program(r, o)
 				opts := ugo.CompilerOptions{NoOptimize: r.Bool()}
 				bc, err := ugo.Compile([]byte(src), opts)
@@ -204,7 +214,9 @@ func init() {
 					c.Count("compile-error")
 					continue
 				}
-				args := []ugo.Object{pool[r.Intn(len(pool))], pool[r.Intn(len(pool))]}
+				// fresh argument objects for every case (scripts mutate them) and never the same
+				// container object twice (the request line cannot express aliasing between arguments)
+				args := []ugo.Object{argPool()[r.Intn(len(pool))], argPool()[r.Intn(len(pool))]}
 				rec := r.Bool()
 				optS := "-"
 				if rec {
